@@ -20,7 +20,7 @@ _GIVE_UP = [True]
 
 def guarded(fn, *args, what=None):
     try:
-        return budget.call(fn, *args, seconds=4)
+        return budget.call(fn, *args, seconds=30)
     except budget.Budget:
         if what is not None and _GIVE_UP[0]:
             HANGS.append(what)
@@ -65,19 +65,28 @@ def build_format(f, with_base=False):
     """f: the model's format record.  with_base: first argument / first option / first command name go to a base format"""
     from clikit.api.args.format import ArgsFormat, ArgsFormatBuilder, Argument, CommandName, Option
 
+    # every second element is an instance of an application's own subclass (a subclass instance is an element like any other)
+    class AppArgument(Argument):
+        pass
+
+    class AppOption(Option):
+        pass
+
     names = [CommandName(txt(c["n"]), [txt(a) for a in c["al"]]) for c in f["cnames"]]
     args = []
     for a in f["args"]:
         flags = (Argument.REQUIRED if a["req"] else Argument.OPTIONAL) | (Argument.MULTI_VALUED if a["multi"] else 0)
         flags |= TYPE_ARG[a["type"]] | (Argument.NULLABLE if a["nullable"] else 0)
         d = raw_default(a["dflt"])
-        args.append(Argument(a["name"], flags, None, d) if d is not None else Argument(a["name"], flags))
+        A_ = AppArgument if len(args) % 2 == 1 else Argument
+        args.append(A_(a["name"], flags, None, d) if d is not None else A_(a["name"], flags))
     opts = []
     for o in f["opts"]:
         flags = MODE[o["mode"]] | TYPE_OPT[o["type"]] | (Option.NULLABLE if o["nullable"] else 0)
         d = raw_default(o["dflt"])
         short = o["short"] or None
-        opts.append(Option(txt(o["long"]), short, flags, None, d) if d is not None else Option(txt(o["long"]), short, flags))
+        O_ = AppOption if len(opts) % 2 == 0 else Option
+        opts.append(O_(txt(o["long"]), short, flags, None, d) if d is not None else O_(txt(o["long"]), short, flags))
     if not with_base:
         b = ArgsFormatBuilder()
         b.add_command_names(*names)
@@ -178,6 +187,8 @@ def pv(v):
     if isinstance(v, str):
         return {"k": "str", "v": list(v)}
     if isinstance(v, list):
+        if len(v) > 40:   # (a library that lets a list grow from parse to parse must not exhaust the harness: the tail is cut)
+            return {"k": "list", "v": [pv(x) for x in v[:40]] + [{"k": "other:truncated"}]}
         return {"k": "list", "v": [pv(x) for x in v]}
     return {"k": "other:" + type(v).__name__}
 
